@@ -54,7 +54,7 @@ func main() {
 	total := chain.RunStats{Tags: map[string]int{}}
 	for _, name := range []string{"v1only", "mixed", "v2only", "foundation", "foundation2"} {
 		cfg := chain.BaseConfig(chain.Shapes()[name])
-		cfg.Defects = []string{"unbalanced", "zero", "formation", "payout", "wrap", "intx", "confuse", "inblock"}
+		cfg.Defects = []string{"unbalanced", "zero", "formation", "payout", "wrap", "intx", "confuse", "inblock", "reuse"}
 		cfg.MaxReverts = 1
 		st := chain.Run(c, cfg, chain.RunOpts{Num: c.Pick(140, 3500), Depth: 56, Timeout: 20 * time.Minute})
 		total.Behaviours += st.Behaviours
@@ -83,6 +83,27 @@ func main() {
 		total.Steps += st.Steps
 		for k, v := range st.Tags {
 			total.Tags[k] += v
+		}
+	}
+	// blocks of the transition window that carry v1 and v2 transactions: a parent spent by a v1 transaction and again by
+	// a v2 transaction of the same block would be counted twice (exhaustive narrow family, verdicts only)
+	{
+		p := chain.Shapes()["mixed"]
+		p.AllowH, p.RequireH, p.EphH = 2, 4, 3
+		p.GenSC = []chain.AbsOut{{1199, "B"}}
+		cfg := chain.BaseConfig(p)
+		cfg.Addrs = []string{"B"}
+		cfg.Templates, cfg.Defects = []string{"pay"}, []string{"reuse"}
+		cfg.PayAmts, cfg.Fees = []int{599}, []int{0}
+		cfg.MaxHeight, cfg.MaxTxns, cfg.MaxReverts, cfg.NoPost = 3, 2, 0, true
+		st := chain.Run(c, cfg, chain.RunOpts{Exhaustive: true, Timeout: 20 * time.Minute})
+		total.Behaviours += st.Behaviours
+		total.Steps += st.Steps
+		for k, v := range st.Tags {
+			total.Tags["mixed-family:"+k] += v
+		}
+		if st.Tags["v2:pay!reuse"] == 0 {
+			c.Infra("vacuity: no v2 transaction re-using a parent in a block of the transition window")
 		}
 	}
 	// the block exactly at the ephemeral-output height (and the ones around it): siafund outputs spent in the block that
@@ -131,7 +152,7 @@ func main() {
 	c.Count(int64(total.Steps), int64(total.Behaviours))
 	for _, need := range []string{"v1:pay", "v2:pay", "v1:sf", "v2:sf", "v1:form1", "v2:form2", "v2:attest", "v1:fnd", "v2:fnd",
 		"v1:sf!sfwrap", "v2:sf!sfwrap", "v2:pay!scwrap", "v1:pay!scwrap",
-		"block!payout+1", "block!payout-1", "block!payout-nov1fees", "block!payout-nov2fees", "v2:sf!ephemeral", "v2:rev2!inblock"} {
+		"block!payout+1", "block!payout-1", "block!payout-wrap-mid", "block!payout-wrap-early", "block!payout-wrap-last", "block!payout-nov1fees", "block!payout-nov2fees", "v2:sf!ephemeral", "v2:rev2!inblock"} {
 		if need == "v1:fnd" {
 			continue // rare in the quick tier; counted in evidence
 		}
